@@ -65,20 +65,21 @@ type Run struct {
 	start time.Time
 	mu    sync.Mutex
 
-	evaluations    int64
-	digests        map[uint64]struct{}
-	samples        []any
-	counters       map[string]int64
-	maxima         map[string]float64
-	violations     []violation
-	known          map[string]knownEntry
-	knownHits      map[string]int64
-	inconclusive   int64
-	onlyCase       int
-	curCase        int
-	verbose        bool
-	extra          map[string]any
-	replaysWritten int
+	evaluations       int64
+	digests           map[uint64]struct{}
+	samples           []any
+	counters          map[string]int64
+	maxima            map[string]float64
+	violations        []violation
+	known             map[string]knownEntry
+	knownHits         map[string]int64
+	inconclusive      int64
+	onlyCase          int
+	slowViolatedCases int
+	curCase           int
+	verbose           bool
+	extra             map[string]any
+	replaysWritten    int
 }
 
 // Thorough reports whether the tier is "thorough".
@@ -198,6 +199,26 @@ func (r *Run) CasesParallel(stream string, n, workers int, body func(i int, rng 
 }
 
 func (r *Run) runCase(stream string, i int, body func(i int, rng *rand.Rand)) {
+	// A tree that deadlocks makes every affected case cost a full watchdog period. Once four cases have each run into a
+	// watchdog (took > 50 s) AND been reported as violations, the remaining cases add nothing but hours: they are skipped
+	// and counted inconclusive. Never triggers on a tree without violations.
+	r.mu.Lock()
+	skip := r.slowViolatedCases >= 4
+	nBefore := len(r.violations)
+	r.mu.Unlock()
+	if skip {
+		r.Count("cases-skipped-after-four-watchdog-violations:"+stream, 1)
+		r.Inconclusive("case skipped: four earlier cases hit a watchdog and are reported as violations")
+		return
+	}
+	t0 := time.Now()
+	defer func() {
+		r.mu.Lock()
+		if time.Since(t0) > 50*time.Second && len(r.violations) > nBefore {
+			r.slowViolatedCases++
+		}
+		r.mu.Unlock()
+	}()
 	cur := filepath.Join(Root(), "evidence", ".current", fmt.Sprintf("%s.%s.json", r.ID, stream))
 	desc := map[string]any{"property": r.ID, "stream": stream, "case": i, "seed": r.Seed, "tier": r.Tier}
 	b, _ := json.Marshal(desc)
